@@ -163,6 +163,24 @@ Theorem C13_rgb_binary_upper_half : forall a b, In (FRgbBin, a, b) conv_pairs ->
   (convert FRgbBin a b c = bin_off <-> luma_via a c < 128) /\ 0 <= luma_via a c <= 255.
 Proof. exact c13_rgb_binary_upper_half. Qed.
 
+(* RGB -> BinaryColor is monotone in every channel (Off = 0 < On = 1) *)
+Theorem C13_rgb_binary_mono : forall a b, In (FRgbBin, a, b) conv_pairs -> forall c1 c2, valid a c1 -> valid a c2 ->
+  get_r a c1 <= get_r a c2 -> get_g a c1 <= get_g a c2 -> get_b a c1 <= get_b a c2 ->
+  convert FRgbBin a b c1 <= convert FRgbBin a b c2.
+Proof. exact c13_rgb_binary_mono. Qed.
+
+(* Gray -> BinaryColor is monotone *)
+Theorem C13_gray_binary_mono : forall a b, In (FGrayBin, a, b) conv_pairs -> forall c1 c2, valid a c1 -> valid a c2 ->
+  luma_of a c1 <= luma_of a c2 -> convert FGrayBin a b c1 <= convert FGrayBin a b c2.
+Proof. exact c13_gray_binary_mono. Qed.
+
+(* BinaryColor -> X gives BLACK / WHITE, and converting back returns the original (X has at least one bit per channel) *)
+Theorem C13_binary_roundtrip : forall a b, In (FBinAny, a, b) conv_pairs ->
+  exists g, find_pair b a = Some g /\
+  convert g b a (convert FBinAny a b bin_off) = bin_off /\ convert g b a (convert FBinAny a b bin_on) = bin_on /\
+  convert FBinAny a b bin_off = color_black b /\ convert FBinAny a b bin_on = color_white b.
+Proof. exact c13_binary_roundtrip. Qed.
+
 (* the quantifier: 182 provided conversions = every ordered pair of distinct built-in types, between table rows, no duplicates *)
 Theorem C13_pairs_census :
   length conv_pairs = 182%nat /\
